@@ -99,6 +99,118 @@ Qed.
 End X16.
 
 (* ---------------------------------------------------------------------------------------------- *)
+(* every derivative order: one step takes  sum_i c_i D^{k+1} B_{i,n}  to  sum_i c'_i D^k B_{i,n-1}  with
+   c'_i = n (c_i - c_{i-1}) / (t_{i+n} - t_i)  (dropped when the knot difference vanishes); iterating it, the k-th derivative
+   formula (BSpline.dBfun kn side k n, the analytic k-th derivative by C02) of a spline of degree n with coefficients c is the
+   spline of degree n-k whose coefficients are the k-th iterated divided differences of c — de Boor, PGS X.(15)/(16) *)
+Section X16k.
+Context {A : Arith}.
+Variable F : OField A.
+Notation K := (T A).
+Add Field Kfield16k : (OFth F).
+Notation le := (@OFieldKit.le A).
+
+Variable kn : Z -> K.
+Variable nknots : Z.
+Hypothesis Hmono : forall i j, 0 <= i -> i <= j -> j < nknots -> le (kn i) (kn j).
+Variable side : bool.
+Variable x : K.
+Variable l : Z.
+Hypothesis Hl0 : 0 <= l.
+Hypothesis Hl1 : l + 1 < nknots.
+Hypothesis Hpiece : in_piece kn side l x.
+
+Lemma wdiv_mul_swap (a X D : K) : mul a (wdiv X D) = mul (wdiv a D) X.
+Proof.
+  destruct (eqbK D zero) eqn:E.
+  - apply eqbK_true in E; [|exact F]. rewrite !(wdiv_z F) by exact E. ring.
+  - assert (D <> zero) as Hn by (intro Hz; rewrite (proj2 (eqbK_true F D zero) Hz) in E; discriminate).
+    rewrite !(wdiv_nz F) by exact Hn. field. exact Hn.
+Qed.
+
+(* coefficients after one differentiation step, attached to B_{i,n-1} *)
+Definition cstep (n : nat) (c : Z -> K) (i : Z) : K :=
+  wdiv (mul (ofZ (Z.of_nat n)) (sub (c i) (c (i - 1)))) (sub (kn (i + Z.of_nat n)) (kn i)).
+
+Section Step.
+Variable n1 : nat.
+Notation n := (S n1).
+Variable k : nat.
+Variable c : Z -> K.
+
+Definition wqk (i : Z) : K := wdiv (dBfun kn side k n1 i x) (sub (kn (i + Z.of_nat n)) (kn i)).
+
+Lemma dBk_is_w i : dBfun kn side (S k) n i x = mul (ofZ (Z.of_nat n)) (sub (wqk i) (wqk (i + 1))).
+Proof.
+  cbn [dBfun]. unfold wqk. rewrite (kn_idx kn (i + 1 + Z.of_nat n) (i + Z.of_nat n + 1)) by lia. reflexivity.
+Qed.
+
+Lemma scale1k : forall m a,
+  sum_range (fun i => mul (c i) (dBfun kn side (S k) n i x)) a m =
+  mul (ofZ (Z.of_nat n)) (sum_range (fun i => mul (c i) (sub (wqk i) (wqk (i + 1)))) a m).
+Proof. induction m as [|m IH]; intro a; cbn [sum_range]; [ring|]. rewrite IH, dBk_is_w. ring. Qed.
+
+Lemma scale2k : forall m a,
+  sum_range (fun i => mul (cstep n c i) (dBfun kn side k n1 i x)) (a + 1) m =
+  mul (ofZ (Z.of_nat n)) (sum_range (fun j => mul (sub (c (j + 1)) (c j)) (wqk (j + 1))) a m).
+Proof.
+  induction m as [|m IH]; intro a; cbn [sum_range]; [ring|]. rewrite IH. unfold cstep, wqk.
+  replace (a + 1 - 1) with a by lia.
+  rewrite <- (wdiv_mul_swap (mul (ofZ (Z.of_nat n)) (sub (c (a + 1)) (c a)))). ring.
+Qed.
+
+(* one differentiation step over the coefficients a .. a+M, in the range where both end terms vanish *)
+Lemma deriv_step (a : Z) (M : nat) : 0 <= a -> a + Z.of_nat M + Z.of_nat n + 1 < nknots ->
+  a + Z.of_nat n <= l -> l <= a + Z.of_nat M ->
+  sum_range (fun i => mul (c i) (dBfun kn side (S k) n i x)) a (S M) =
+  sum_range (fun i => mul (cstep n c i) (dBfun kn side k n1 i x)) (a + 1) M.
+Proof.
+  intros Ha Hk Hlo Hhi.
+  rewrite scale1k, scale2k, (abel F c wqk M a).
+  assert (W0 : wqk a = zero).
+  { unfold wqk. rewrite (dBk_support F kn nknots Hmono side l x Hl0 Hl1 Hpiece k n1 a) by lia. apply (wdiv_zero_num F). }
+  assert (WN : wqk (a + Z.of_nat M + 1) = zero).
+  { unfold wqk. rewrite (dBk_support F kn nknots Hmono side l x Hl0 Hl1 Hpiece k n1 (a + Z.of_nat M + 1)) by lia. apply (wdiv_zero_num F). }
+  rewrite W0, WN. ring.
+Qed.
+End Step.
+
+(* the coefficients after k steps: degree n goes down to n-k, the first coefficient index goes up by one per step *)
+Fixpoint citer (k n : nat) (c : Z -> K) : Z -> K :=
+  match k with
+  | O => c
+  | S k' => citer k' (n - 1) (cstep n c)
+  end.
+
+(* the same coefficients, last step outermost *)
+Lemma citer_snoc : forall k n c, citer (S k) n c = cstep (n - k) (citer k n c).
+Proof.
+  induction k as [|k IH]; intros n c.
+  - cbn [citer]. rewrite Nat.sub_0_r. reflexivity.
+  - change (citer (S (S k)) n c) with (citer (S k) (n - 1) (cstep n c)).
+    rewrite IH. cbn [citer]. replace (n - 1 - k)%nat with (n - S k)%nat by lia. reflexivity.
+Qed.
+
+Theorem deriv_k_is_difference_spline : forall (k n : nat) (c : Z -> K) (a : Z) (M : nat),
+  (k <= n)%nat -> (k <= M)%nat -> 0 <= a -> a + Z.of_nat M + Z.of_nat n + 1 < nknots ->
+  a + Z.of_nat n <= l -> l <= a + Z.of_nat M ->
+  sum_range (fun i => mul (c i) (dBfun kn side k n i x)) a (S M) =
+  sum_range (fun i => mul (citer k n c i) (Bfun kn side (n - k) i x)) (a + Z.of_nat k) (S M - k).
+Proof.
+  induction k as [|k IH]; intros n c a M Hkn HkM Ha Hk Hlo Hhi.
+  - cbn [citer dBfun]. rewrite Nat.sub_0_r, Z.add_0_r. reflexivity.
+  - destruct n as [|n1]; [lia|]. destruct M as [|M']; [lia|].
+    rewrite (deriv_step n1 k c a (S M') Ha Hk Hlo Hhi).
+    cbn [citer]. replace (S n1 - 1)%nat with n1 by lia.
+    rewrite (IH n1 (cstep (S n1) c) (a + 1) M') by lia.
+    replace (a + 1 + Z.of_nat k) with (a + Z.of_nat (S k)) by lia.
+    replace (S n1 - S k)%nat with (n1 - k)%nat by lia.
+    replace (S (S M') - S k)%nat with (S M' - k)%nat by lia. reflexivity.
+Qed.
+
+End X16k.
+
+(* ---------------------------------------------------------------------------------------------- *)
 (* the order-1 stencil of glam.c's divided_diffs (FitModel.divided_diffs) is that coefficient map *)
 From PS Require Import FitModel.
 Section Stencil.
